@@ -1256,6 +1256,28 @@ def GENSW(ctx):
         line = "gen set_vt s%s i%d" % (s2, rng.choice([1, 1, 2, 3, 5, 12, 33, 40]))
         ctx.corr(line)
         ctx.case(line, True, "gen:set_vt")
+        # repair_dna / path_matching: walks with 0-3 edits, random strings, check present / absent / wrong
+        n = rng.choice([k, k + 1, 3 * k + 2, 6 * k + 3, 20])
+        w = gen.rand_walk(rng, g, v, n) if rng.random() < 0.75 else gen.rand_dna(rng, n)
+        for _ in range(rng.choice([0, 1, 1, 2, 3])):
+            if len(w) > 1:
+                w = gen.apply_edit(w, gen.rand_edit(rng, w))
+        if len(w) >= k:
+            chk = "n"
+            if rng.random() < 0.5:
+                st, c = proto.guarded(lambda: SW.set_vt(w, rng.choice([1, 2, 4])))
+                if st == "ok":
+                    chk = "s" + (c if rng.random() < 0.6 else gen.rand_dna(rng, len(c)))
+            line = "gen repair_dna s%s %s i%d i%d %s %s i%d" % (w, _wire_acc(rows), v, k, chk, rng.choice(["bT", "bF"]),
+                                                                 rng.choice([0, 1, 10, 1000, 1000]))
+            out = ctx.corr(line)
+            ctx.case(line, out.startswith("ok"), "gen:repair_dna")
+        if len(w) >= 1:
+            occ = rng.randrange(len(w))
+            line = "gen path_matching s%s %s i%d i%d %s n" % (w[:2 * k + 1], _wire_acc(rows), rng.choice([v, rng.randrange(g.n), -1]),
+                                                            min(occ, max(0, len(w[:2 * k + 1]) - 1)), rng.choice(["bT", "bF"]))
+            out = ctx.corr(line)
+            ctx.case(line, out.startswith("ok"), "gen:path_matching")
 
 
 def GENGZ(ctx):
